@@ -344,11 +344,17 @@ func TestMain(m *testing.M) {
 		privateTmp = d
 		_ = os.Setenv("TMPDIR", d)
 		// relative paths in generated configurations (e.g. the default concurrent audit-log directory)
-		// land in the private directory; native fuzzing needs the package directory for its corpus
+		// land in the private directory; the coordinator of a native fuzzing campaign needs the package directory
+		// for its corpus, its workers (which execute the inputs) do not
 		fuzzing := false
 		for _, a := range os.Args {
 			if strings.HasPrefix(a, "-test.fuzz") {
 				fuzzing = true
+			}
+		}
+		for _, a := range os.Args {
+			if strings.HasPrefix(a, "-test.fuzzworker") {
+				fuzzing = false
 			}
 		}
 		if !fuzzing {
